@@ -191,7 +191,11 @@ class Recorder:
 
 
 REC = Recorder()
-PLAN = {"task": {}, "phase": {}, "init_labels": None}
+PLAN = {"task": {}, "phase": {}, "init_labels": None, "label_script": None, "round_budget": None}
+
+
+class RoundBudgetExceeded(Exception):
+    """Raised by the harness when the library starts a round far beyond iteration_limit (logical bound, not a clock)."""
 _INSTALLED = {}
 _LOCK = threading.Lock()
 
@@ -215,6 +219,8 @@ def _wrap_phase(mod, name, phase):
 
     def wrapper(model, *a, **k):
         rnd = sum(1 for p in REC.phases if p["phase"] == "label")
+        if PLAN.get("round_budget") is not None and rnd >= PLAN["round_budget"] + 2:
+            raise RoundBudgetExceeded("phase %s of round %d started although iteration_limit is %d" % (phase, rnd + 1, PLAN["round_budget"]))
         fault = PLAN["phase"].get((phase, rnd))
         before = snap_model(model)
         if fault is not None and fault.get("when", "before") == "before":
@@ -267,6 +273,11 @@ def install_label_monitor():
         t_before = np.array(table, copy=True)
         b_before = np.array(beta, copy=True) if isinstance(beta, np.ndarray) else beta
         r = orig(*args, **kwargs)
+        script = PLAN.get("label_script")
+        if script is not None:
+            # forced history: the labelling of this round is scripted by the harness (the rest of the loop is the real code)
+            k_ = len(REC.label_steps)
+            r = (list(script[min(k_, len(script) - 1)]), float(r[1]))
         count("label_calls")
         REC.label_steps.append(dict(table=t_before, beta=b_before, beta_is_array=isinstance(beta, np.ndarray),
                                     labels=list(r[0]), cost=r[1],
@@ -386,6 +397,8 @@ def reset_run():
     PLAN["task"] = {}
     PLAN["phase"] = {}
     PLAN["init_labels"] = None
+    PLAN["label_script"] = None
+    PLAN["round_budget"] = None
 
 
 @contextlib.contextmanager
